@@ -328,7 +328,7 @@ def handleListing (op : String) (j : Json) : Option (Except String Json) :=
         let a ← p.getArr?
         pure ({ sect := ← (← at' a 0).getStr?, pos := ← (← at' a 1).getNat?, proc := ← (← at' a 2).getInt?,
                 state := ← (← at' a 3).getStr?, block := ← (← at' a 4).getNat?, disp := ← (← at' a 5).getNat?,
-                hasEndproc := ← (← at' a 6).getBool? } : CfiRow))
+                hasEndproc := ← (← at' a 6).getBool?, hasStartproc := (match a[7]? with | some (Json.bool b) => b | _ => false) } : CfiRow))
     let insns ← (← arr j "insns").mapM (fun p => do
       let a ← p.getArr?
       let b ← (a[0]!).getNat?
